@@ -48,6 +48,11 @@ def wiring(P, R):
     ev = [s for s in main.calls('event_new') if len(s.ev['args']) >= 4 and s.ev['args'][1].get('k') in ('int', 'enum') and const_of(s.ev['args'][1]) == 10]
     R.ob('C17.WIRE.1', len(ev) == 1 and ev[0].ev['args'][3].get('k') == 'func', ev[0] if ev else main, 'SIGUSR1 is bound to a callback', key='sigusr1-event')
     if ev:
+        # "every reload": the handler stays installed after it has run once (libevent removes a non-persistent event)
+        fl = const_of(ev[0].ev['args'][2])
+        persist = P.macro_value('EV_PERSIST') if hasattr(P, 'macro_value') else None
+        persist = persist if isinstance(persist, int) else 0x10
+        R.ob('C17.WIRE.1', isinstance(fl, int) and bool(fl & persist), ev[0], 'the SIGUSR1 event is persistent (flags %s include EV_PERSIST)' % (hex(fl) if isinstance(fl, int) else sx(ev[0].ev['args'][2])), key='sigusr1-persist')
         cb = P.direct_target(main, ev[0].ev['args'][3]['name'])
         cr = [s for s in cb.calls('conf_read')] if cb else []
         okr = bool(cr) and is_var(cr[0].ev['args'][0], 'config_filename') and cb.path_avoiding(None, lambda t: t in cr, from_entry=True) is None
@@ -97,6 +102,11 @@ def slot_insertion(P, R):
             gs = f.guards(a.bid)
             okg = any(is_var(g[0]) and g[1] in ('==', '>=') and on_path(g[2], 'used') for g in gs) or any(on_path(g[0], 'used') and is_var(g[2]) and g[1] in ('==', '<=') for g in gs)
             R.ob('C17.MPT.5', okg or not stores, a, 'the append happens only after the search for an empty slot ran through the whole table', key='append-after-search', nontrivial=False)
+    # ... and it takes ONE slot: the store into a free slot is not on a cycle (the search stops at the first free slot),
+    # otherwise a service re-added after a reload fills every hole and is queried - and awaited - once per copy
+    for s in stores:
+        on_cycle = s.bid in f.reach([e.dst for e in f.out[s.bid]])
+        R.ob('C17.MPT.5', not on_cycle, s, 'the search for a free slot stops at the first one it fills', key='one-slot')
     stores += apps
     if srv is None and apps and is_var(apps[0].ev['args'][1]):
         srv = apps[0].ev['args'][1]['name']
